@@ -1,8 +1,9 @@
 """R-REC: recursion reachable from an entry set is bounded (DESIGN 2.3)."""
 from vlib import mir
+from vlib.mir import callee_of, strip_generics
 
 
-def check(ctx, entries, rep, data_bounded=False, allow=None):
+def check(ctx, entries, rep, data_bounded=False, allow=None, decoder=False):
     prog = ctx.prog
     reach, parent = prog.reachable_from(entries)
     sccs = prog.call_sccs(reach)
@@ -15,6 +16,16 @@ def check(ctx, entries, rep, data_bounded=False, allow=None):
         if cert:
             rep.ok("R-REC", key, where, "depth-guard:" + cert)
             continue
+        cert = serde_bounded(prog, comp)
+        if cert:
+            rep.ok("R-REC", key, where, "serde-bounded:" + cert)
+            rep.assume("A3: serde_json enforces its default recursion limit (128); the crate never calls disable_recursion_limit")
+            continue
+        if decoder and not any(consumes_input(prog, f) for f in comp):
+            cyc = same_self_cycle(prog, comp)
+            if cyc is None:
+                rep.ok("R-REC", key, where, "data-bounded:walks a value built by a depth-guarded decoder; every cycle descends into a strict sub-part (%d functions)" % len(comp))
+                continue
         if data_bounded:
             readers = [f for f in comp if consumes_input(prog, f)]
             cyc = same_self_cycle(prog, comp)
@@ -33,36 +44,86 @@ def check(ctx, entries, rep, data_bounded=False, allow=None):
     return sccs
 
 
-def depth_guard(prog, comp):
-    """some function of the SCC compares an integer field/argument against a constant and returns on the far side
-    before recursing, and increments it on the way down. (Recognised shape: SwitchInt/compare of a `depth`-like
-    integer place with a constant, one edge leading to an Err/return without any call back into the SCC.)"""
+def guarded_functions(prog, comp):
+    """functions of the SCC in which every call back into the SCC is dominated by the passing edge of a comparison
+    of a depth counter (an integer field/local whose name says depth/level/nest) with a constant, the other edge
+    of which cannot reach any such call"""
     from rules import guards as G
 
     compset = set(comp)
+    out = {}
     for f in comp:
         body = prog.bodies[f]
         rec_blocks = []
-        for bi, t in body.calls():
-            tg, _ = prog.call_targets(body, t)
-            if tg & compset:
+        for bi, t, tg, cb in prog.call_sites(f):
+            if (tg | cb) & compset:
                 rec_blocks.append(bi)
         if not rec_blocks:
             continue
-        ok_all = True
         why = None
+        ok_all = True
         for rb in rec_blocks:
             found = False
             for g in G.guards_at(body, rb):
                 if g.op in ("Lt", "Le", "Gt", "Ge") and g.b is not None and (g.b.kind == "const" or g.a.kind == "const"):
                     other = g.a if g.b.kind == "const" else g.b
-                    if other.kind in ("place", "binop") and ("depth" in repr(other) or "level" in repr(other) or "nest" in repr(other)):
+                    r = repr(other)
+                    if other.kind in ("place", "binop") and ("depth" in r or "level" in r or "nest" in r):
                         found = True
                         why = "%s: recursive calls dominated by %r" % (mir.strip_generics(f).split("::")[-1], g)
             ok_all = ok_all and found
         if ok_all and why:
-            return why
-    return None
+            out[f] = why
+    return out
+
+
+def depth_guard(prog, comp):
+    """every cycle of the SCC passes through a function whose recursive calls sit behind a depth guard"""
+    gf = guarded_functions(prog, comp)
+    if not gf:
+        return None
+    rest = set(comp) - set(gf)
+    if prog.call_sccs(rest):
+        return None
+    return "; ".join(sorted(gf.values()))[:300]
+
+
+def serde_bounded(prog, comp):
+    """the SCC recurses only through serde's deserializer (callbacks from serde::de / serde_json functions), which
+    enforces serde_json's recursion limit: the SCC restricted to direct local calls is acyclic"""
+    compset = set(comp)
+    edges = {f: set() for f in comp}
+    via_serde = False
+    for f in comp:
+        for bi, t, tg, cb in prog.call_sites(f):
+            edges[f] |= tg & compset
+            if cb & compset:
+                c = callee_of(t)
+                nm = strip_generics(c.get("res") or c["fn"]) if c else ""
+                if nm.startswith(("serde::de", "serde::Deserializer", "serde_json::", "serde::Deserialize")):
+                    via_serde = True
+                else:
+                    edges[f] |= cb & compset
+        for cid in prog.closures_of.get(f, []):
+            if cid in compset:
+                edges[f].add(cid)
+    # acyclic?
+    color = {}
+
+    def dfs(u):
+        color[u] = 1
+        for v in edges[u]:
+            if color.get(v) == 1:
+                return True
+            if v not in color and dfs(v):
+                return True
+        color[u] = 2
+        return False
+
+    for f in comp:
+        if f not in color and dfs(f):
+            return None
+    return "recursion only through serde's Deserializer callbacks (recursion limit of serde_json, A3)" if via_serde else None
 
 
 WALKER_TRAITS = (
@@ -107,7 +168,247 @@ def consumes_input(prog, f):
     return im.get("trait") in ("serde::de::Visitor", "serde::Deserialize")
 
 
+STRICT_CALLS = ("::next", "::get", "::first", "::last", "::index", "::get_mut", "::pop", "::next_back", "::nth", "::find")
+PASS_CALLS = ("::iter", "::deref", "::as_ref", "::as_mut", "::into_iter", "::enumerate", "::borrow", "::values", "::keys", "::as_slice", "::as_str",
+              "::deref_mut", "::iter_mut", "::rev", "::skip", "::take", "::peekable", "::by_ref", "::as_deref", "::unwrap", "::expect", "::copied", "::cloned")
+
+
+def origins(body, op, depth=14):
+    """{(slot local, strict)}: parameters of `body` the operand's value is (a sub-part of); None if unknown"""
+    from vlib.mir import op_place, op_const
+
+    if op_const(op) is not None:
+        return set()
+    pl = op_place(op)
+    if pl is None:
+        return None
+    return _origins_place(body, pl, depth)
+
+
+def _origins_place(body, pl, depth):
+    from vlib.mir import op_place, op_const
+
+    strict = any(x != "*" for x in pl["p"])
+    l = pl["l"]
+    if 0 < l <= body.arg_count:
+        return {(l, strict)}
+    if depth <= 0:
+        return None
+    ds = body.defs().get(l, [])
+    if not ds:
+        return None
+    out = set()
+    for bi, si, rv in ds:
+        if si == "term":
+            c = callee_of(rv)
+            nm = strip_generics(c.get("res") or c["fn"]) if c else ""
+            if not rv["args"]:
+                continue  # nullary constructor (Dict::new(), Default::default()): a constant of bounded size
+            if nm.endswith(STRICT_CALLS):
+                r = origins(body, rv["args"][0], depth - 1) if rv["args"] else None
+                if r is None:
+                    return None
+                out |= {(x, True) for x, _ in r}
+            elif nm.endswith(PASS_CALLS):
+                r = origins(body, rv["args"][0], depth - 1) if rv["args"] else None
+                if r is None:
+                    return None
+                out |= {(x, st or strict) for x, st in r}
+            else:
+                return None
+        else:
+            k = rv["k"]
+            if k == "use" or k == "cast":
+                r = origins(body, rv["op"], depth - 1)
+            elif k in ("ref", "rawptr"):
+                r = _origins_place(body, rv["place"], depth - 1)
+            elif k == "agg" and rv.get("ak") in ("tuple",):
+                r = set()
+                for o in rv["ops"]:
+                    x = origins(body, o, depth - 1)
+                    if x is None:
+                        return None
+                    r |= x
+            else:
+                return None
+            if r is None:
+                return None
+            out |= {(x, st or strict) for x, st in r}
+    return out
+
+
 def same_self_cycle(prog, comp):
+    """Structural-descent certificate (a simplified size-change argument). Each function of the SCC gets one
+    'walked' slot (a parameter; for closures also a captured variable); along every call edge of the SCC the value
+    handed to the callee's walked slot must be the caller's walked slot itself ('=') or a strict sub-part of it ('<':
+    a field, a variant payload, an element produced by next/get/index). The '=' edges must not form a cycle.
+    Returns an offending cycle / edge list, or None when a consistent assignment exists."""
+    from rules import guards as G
+    import itertools
+
+    compset = set(comp)
+    bodies = {f: prog.bodies[f] for f in comp}
+
+    def slots(f):
+        b = bodies[f]
+        return list(range(1, b.arg_count + 1))
+
+    # closure upvar -> parent operand
+    def closure_info(f):
+        b = bodies[f]
+        if b.rec["kind"] != "Closure":
+            return None
+        par = prog.bodies.get(b.rec.get("parent"))
+        if par is None:
+            return None
+        for bi, blk in enumerate(par.blocks):
+            for st in blk["stmts"]:
+                if st["k"] == "assign" and st["rv"]["k"] == "agg" and st["rv"].get("closure") == f:
+                    return par, st["rv"]["ops"], st["lhs"]["l"]
+        return None
+
+    # edges: (f, g, rel) where rel: dict (wf, wg) -> '=' | '<'
+    edges = []
+    for f in comp:
+        body = bodies[f]
+        for bi, t, tg, cb in prog.call_sites(f):
+            for g in (tg & compset):
+                rel = {}
+                gb = bodies[g]
+                for j, a in enumerate(t["args"]):
+                    wg = j + 1
+                    if wg > gb.arg_count:
+                        continue
+                    org = origins(body, a)
+                    if org is None:
+                        continue
+                    for (wf, strict) in org:
+                        rel[(wf, wg)] = "<" if strict else "="
+                edges.append((f, g, rel, "call"))
+            for g in (cb & compset) - tg:
+                # callback through an external generic function: callee walks its first slot (self / the element)
+                rel = {}
+                gb = bodies[g]
+                wgs = [1] if gb.rec["kind"] != "Closure" else list(range(2, gb.arg_count + 1))
+                allorg = []
+                known = True
+                for a, aty in zip(t["args"], t.get("arg_tys", [])):
+                    org = origins(body, a)
+                    if org is None:
+                        if "haystack::" in aty or "c_api::" in aty:
+                            # a crate value of unknown provenance is handed to the callee: no descent can be claimed
+                            if not ("{closure" in aty):
+                                known = False
+                        continue
+                    allorg.append(org)
+                if not known:
+                    edges.append((f, g, {}, "callback"))
+                    continue
+                if allorg and all(not o for o in allorg):
+                    # only constants (freshly built, bounded values) are passed on
+                    rel = {(wf, wg): "<" for wf in slots(f) for wg in wgs}
+                    edges.append((f, g, rel, "callback"))
+                    continue
+                c = callee_of(t)
+                nm = strip_generics(c.get("res") or c["fn"]) if c else ""
+                elementwise = gb.rec["kind"] == "Closure" or not nm.endswith(("::to_string", "std::fmt::format", "::write_fmt", "::new_display", "::new_debug", "::into", "::from", "::clone", "::to_owned"))
+                for org in allorg:
+                    for (wf, strict) in org:
+                        for wg in wgs:
+                            r = "<" if (strict or elementwise) else "="
+                            if rel.get((wf, wg)) != "=":
+                                rel[(wf, wg)] = r if (wf, wg) not in rel or r == "=" else rel[(wf, wg)]
+                edges.append((f, g, rel, "callback"))
+        for cid in prog.closures_of.get(f, []):
+            if cid in compset:
+                # the closure runs on behalf of f: its captured variables are f's values
+                ci = closure_info(cid)
+                rel = {}
+                if ci:
+                    par, ops, _ = ci
+                    # closure slot 1 is the environment; model: walked slot of a closure is one of its own params (>=2),
+                    # related to the parent through the adaptor call (callback edge above). The creation edge carries '='
+                    # on nothing; it is not a call.
+                continue
+    # CSP over walked slots
+    funcs = list(comp)
+    dom = {f: slots(f) for f in funcs}
+    for f in funcs:
+        if bodies[f].rec["kind"] == "Closure":
+            dom[f] = [x for x in dom[f] if x >= 2] or dom[f]
+    if any(not dom[f] for f in funcs):
+        return [f for f in funcs if not dom[f]][:1] * 2
+    out_edges = {}
+    for f, g, rel, kind in edges:
+        out_edges.setdefault(f, []).append((g, rel, kind))
+    order = sorted(funcs, key=lambda f: len(dom[f]))
+    assign = {}
+    best_fail = [None]
+
+    def consistent(f):
+        for (a, b, rel, kind) in edges:
+            if a in assign and b in assign and (a == f or b == f):
+                if (assign[a], assign[b]) not in rel:
+                    best_fail[0] = [a, b]
+                    return False
+        return True
+
+    def eq_cycle():
+        eq = {f: set() for f in funcs}
+        for (a, b, rel, kind) in edges:
+            if rel.get((assign[a], assign[b])) == "=":
+                eq[a].add(b)
+        color = {}
+        stack = []
+
+        def dfs(u):
+            color[u] = 1
+            stack.append(u)
+            for v in sorted(eq[u]):
+                if color.get(v) == 1:
+                    return stack[stack.index(v):] + [v]
+                if v not in color:
+                    r = dfs(v)
+                    if r:
+                        return r
+            stack.pop()
+            color[u] = 2
+            return None
+
+        for f in funcs:
+            if f not in color:
+                r = dfs(f)
+                if r:
+                    return r
+        return None
+
+    steps = [0]
+
+    def solve(i):
+        steps[0] += 1
+        if steps[0] > 200000:
+            return False
+        if i == len(order):
+            cyc = eq_cycle()
+            if cyc:
+                best_fail[0] = cyc
+                return False
+            return True
+        f = order[i]
+        for w in dom[f]:
+            assign[f] = w
+            if consistent(f) and solve(i + 1):
+                return True
+            del assign[f]
+        return False
+
+    if solve(0):
+        return None
+    return best_fail[0] or funcs[:2]
+
+
+def _old_same_self_cycle(prog, comp):
+
     """edges f -> g (both in comp) where f hands its own first parameter (or a whole captured variable) to g
     unchanged; returns a cycle of such edges, or None. A cycle of the SCC that has no such sub-cycle passes at
     least one call whose receiver is a strict sub-part (field, element), so it terminates on finite data."""
@@ -119,6 +420,17 @@ def same_self_cycle(prog, comp):
     for f in comp:
         body = prog.bodies[f]
         is_closure = body.rec["kind"] == "Closure"
+        self_upvars = set()
+        if is_closure:
+            # upvars that hold the enclosing function's own first parameter
+            par = prog.bodies.get(body.rec.get("parent"))
+            if par is not None:
+                for blk in par.blocks:
+                    for st in blk["stmts"]:
+                        if st["k"] == "assign" and st["rv"]["k"] == "agg" and st["rv"].get("closure") == f:
+                            for k, o in enumerate(st["rv"]["ops"]):
+                                if re.fullmatch(r"_1\**", repr(G.describe(par, o))):
+                                    self_upvars.add(k)
         for bi, t, tg, cb in prog.call_sites(f):
             hit = (tg | cb) & compset
             if not hit:
@@ -128,7 +440,8 @@ def same_self_cycle(prog, comp):
                 r = repr(G.describe(body, a))
                 if not is_closure and re.fullmatch(r"_1\**", r):
                     whole = True
-                if is_closure and re.fullmatch(r"_1\*?\.\d+\**", r):
+                m = re.fullmatch(r"_1\*?\.(\d+)\**", r) if is_closure else None
+                if m and int(m.group(1)) in self_upvars:
                     whole = True
             if whole:
                 edges[f] |= hit
